@@ -82,7 +82,7 @@ def insert_knot(obj, param, num, **kwargs):
                                       data=dict(knot=param[0], num=num[0], multiplicity=s))
 
             # Find knot span
-            span = helpers.find_span_linear(obj.degree, obj.knotvector, obj.ctrlpts_size, param[0])
+            span = ops.find_knot_span(obj.degree, obj.knotvector, obj.ctrlpts_size, param[0])
 
             # Compute new knot vector
             kv_new = helpers.knot_insertion_kv(obj.knotvector, param[0], span, num[0])
@@ -109,7 +109,7 @@ def insert_knot(obj, param, num, **kwargs):
                                       data=dict(knot=param[0], num=num[0], multiplicity=s_u))
 
             # Find knot span
-            span_u = helpers.find_span_linear(obj.degree_u, obj.knotvector_u, obj.ctrlpts_size_u, param[0])
+            span_u = ops.find_knot_span(obj.degree_u, obj.knotvector_u, obj.ctrlpts_size_u, param[0])
 
             # Compute new knot vector
             kv_u = helpers.knot_insertion_kv(obj.knotvector_u, param[0], span_u, num[0])
@@ -139,7 +139,7 @@ def insert_knot(obj, param, num, **kwargs):
                                       data=dict(knot=param[1], num=num[1], multiplicity=s_v))
 
             # Find knot span
-            span_v = helpers.find_span_linear(obj.degree_v, obj.knotvector_v, obj.ctrlpts_size_v, param[1])
+            span_v = ops.find_knot_span(obj.degree_v, obj.knotvector_v, obj.ctrlpts_size_v, param[1])
 
             # Compute new knot vector
             kv_v = helpers.knot_insertion_kv(obj.knotvector_v, param[1], span_v, num[1])
@@ -170,7 +170,7 @@ def insert_knot(obj, param, num, **kwargs):
                                       data=dict(knot=param[0], num=num[0], multiplicity=s_u))
 
             # Find knot span
-            span_u = helpers.find_span_linear(obj.degree_u, obj.knotvector_u, obj.ctrlpts_size_u, param[0])
+            span_u = ops.find_knot_span(obj.degree_u, obj.knotvector_u, obj.ctrlpts_size_u, param[0])
 
             # Compute new knot vector
             kv_u = helpers.knot_insertion_kv(obj.knotvector_u, param[0], span_u, num[0])
@@ -215,7 +215,7 @@ def insert_knot(obj, param, num, **kwargs):
                                       data=dict(knot=param[1], num=num[1], multiplicity=s_v))
 
             # Find knot span
-            span_v = helpers.find_span_linear(obj.degree_v, obj.knotvector_v, obj.ctrlpts_size_v, param[1])
+            span_v = ops.find_knot_span(obj.degree_v, obj.knotvector_v, obj.ctrlpts_size_v, param[1])
 
             # Compute new knot vector
             kv_v = helpers.knot_insertion_kv(obj.knotvector_v, param[1], span_v, num[1])
@@ -260,7 +260,7 @@ def insert_knot(obj, param, num, **kwargs):
                                       data=dict(knot=param[2], num=num[2], multiplicity=s_w))
 
             # Find knot span
-            span_w = helpers.find_span_linear(obj.degree_w, obj.knotvector_w, obj.ctrlpts_size_w, param[2])
+            span_w = ops.find_knot_span(obj.degree_w, obj.knotvector_w, obj.ctrlpts_size_w, param[2])
 
             # Compute new knot vector
             kv_w = helpers.knot_insertion_kv(obj.knotvector_w, param[2], span_w, num[2])
@@ -358,7 +358,7 @@ def remove_knot(obj, param, num, **kwargs):
                                       data=dict(knot=param[0], num=num[0], multiplicity=s))
 
             # Find knot span
-            span = helpers.find_span_linear(obj.degree, obj.knotvector, obj.ctrlpts_size, param[0])
+            span = ops.find_knot_span(obj.degree, obj.knotvector, obj.ctrlpts_size, param[0])
 
             # Compute new control points
             cpts = obj.ctrlptsw if obj.rational else obj.ctrlpts
@@ -384,7 +384,7 @@ def remove_knot(obj, param, num, **kwargs):
                                       data=dict(knot=param[0], num=num[0], multiplicity=s_u))
 
             # Find knot span
-            span_u = helpers.find_span_linear(obj.degree_u, obj.knotvector_u, obj.ctrlpts_size_u, param[0])
+            span_u = ops.find_knot_span(obj.degree_u, obj.knotvector_u, obj.ctrlpts_size_u, param[0])
 
             # Get curves
             ctrlpts_new = []
@@ -414,7 +414,7 @@ def remove_knot(obj, param, num, **kwargs):
                                       data=dict(knot=param[1], num=num[1], multiplicity=s_v))
 
             # Find knot span
-            span_v = helpers.find_span_linear(obj.degree_v, obj.knotvector_v, obj.ctrlpts_size_v, param[1])
+            span_v = ops.find_knot_span(obj.degree_v, obj.knotvector_v, obj.ctrlpts_size_v, param[1])
 
             # Get curves
             ctrlpts_new = []
@@ -445,7 +445,7 @@ def remove_knot(obj, param, num, **kwargs):
                                       data=dict(knot=param[0], num=num[0], multiplicity=s_u))
 
             # Find knot span
-            span_u = helpers.find_span_linear(obj.degree_u, obj.knotvector_u, obj.ctrlpts_size_u, param[0])
+            span_u = ops.find_knot_span(obj.degree_u, obj.knotvector_u, obj.ctrlpts_size_u, param[0])
 
             # Use Pw if rational
             cpts = obj.ctrlptsw if obj.rational else obj.ctrlpts
@@ -490,7 +490,7 @@ def remove_knot(obj, param, num, **kwargs):
                                       data=dict(knot=param[1], num=num[1], multiplicity=s_v))
 
             # Find knot span
-            span_v = helpers.find_span_linear(obj.degree_v, obj.knotvector_v, obj.ctrlpts_size_v, param[1])
+            span_v = ops.find_knot_span(obj.degree_v, obj.knotvector_v, obj.ctrlpts_size_v, param[1])
 
             # Use Pw if rational
             cpts = obj.ctrlptsw if obj.rational else obj.ctrlpts
@@ -535,7 +535,7 @@ def remove_knot(obj, param, num, **kwargs):
                                       data=dict(knot=param[2], num=num[2], multiplicity=s_w))
 
             # Find knot span
-            span_w = helpers.find_span_linear(obj.degree_w, obj.knotvector_w, obj.ctrlpts_size_w, param[2])
+            span_w = ops.find_knot_span(obj.degree_w, obj.knotvector_w, obj.ctrlpts_size_w, param[2])
 
             # Use Pw if rational
             cpts = obj.ctrlptsw if obj.rational else obj.ctrlpts
